@@ -392,6 +392,11 @@ def r22e(ctx, run):
                 "Tokens::new": lambda i, a, out=out: out.update(kinds=a[0], starts=a[1]),
                 "Vec::new": lambda i, a: [], "Vec::with_capacity": lambda i, a: [],
             }, macros={"debug_assert_eq": lambda i, e, env: None, "debug_assert": lambda i, e, env: None, "format": lambda i, e, env: "fmt"})
+            # named integer constants of the lexer crate
+            for _f, citem in ctx.syn.items_of("const", L):
+                v_ = synq.int_value(citem.get("e")) if citem.get("e") is not None else None
+                if v_ is not None:
+                    it.consts[citem.get("name") or citem.get("ident")] = v_
             text = "".join(t for _, _, t in items)
             try:
                 it.run_fn(lexf, {lexf.param_names()[0]: text})
@@ -421,6 +426,12 @@ def r22e(ctx, run):
                         if kinds[j] not in allowed:
                             why = "byte %d (part of the scanner item %s %r) lies in a %s token" % (p_, c, t, kinds[j])
                             break
+                        # inside a comment the kinds follow the text: the two bytes of `//` are the leader, everything behind them is the contents
+                        if c.startswith("comment"):
+                            want_k = "CommentLeader" if p_ - st0 < 2 else "CommentContents"
+                            if kinds[j] != want_k:
+                                why = "byte %d of the comment %r lies in a %s token, it is part of the %s" % (p_ - st0, t, kinds[j], "leader `//`" if want_k == "CommentLeader" else "contents")
+                                break
                     if why:
                         break
                     merged_err = idx > 0 and c.startswith("err") and combo[idx - 1].startswith("err")
